@@ -36,7 +36,17 @@ instance : Inhabited St := ⟨{}⟩
 
 def flagStr (b : Bool) : String := if b then "c" else "n"
 
-def showU (u : UserEv) : String := s!"{hexOfString u.name}/{u.lt}/{flagStr u.coalesce}/{u.id}"
+/-- the payload field: decimal digits, or `e` (empty, non-nil payload) / `z` (nil payload): two
+distinct events that byte-compare equal; they get ids outside the 64-bit range -/
+def payloadE : Nat := 18446744073709551616
+def payloadZ : Nat := 18446744073709551617
+
+def showPayload (i : Nat) : String := if i == payloadE then "e" else if i == payloadZ then "z" else toString i
+
+def parsePayload (s : String) : Option Nat :=
+  if s == "e" then some payloadE else if s == "z" then some payloadZ else s.toNat?
+
+def showU (u : UserEv) : String := s!"{hexOfString u.name}/{u.lt}/{flagStr u.coalesce}/{showPayload u.id}"
 
 def showEv : Ev → String
   | .user u => showU u
@@ -46,7 +56,7 @@ def parseFlag : String → Option Bool
   | "c" => some true | "n" => some false | _ => none
 
 def parseU (n lt f id : String) : Option UserEv :=
-  match stringOfHex? n, lt.toNat?, parseFlag f, id.toNat? with
+  match stringOfHex? n, lt.toNat?, parseFlag f, parsePayload id with
   | some name, some l, some c, some i => some ⟨name, l, c, i⟩
   | _, _, _, _ => none
 
@@ -95,6 +105,10 @@ def monitorFlush (pend : List UserEv) (out : List Ev) : Option (String × String
         some ("not-newest", s!"name {hexOfString n}: flush emitted an event older than the newest Lamport time received for the name")
       else if want.any (fun w => !got.contains w) then
         some ("lost-event", s!"name {hexOfString n}: an event carrying the newest Lamport time was not emitted")
+      else if got.length < want.length then
+        some ("lost-event", s!"name {hexOfString n}: {want.length} events carry the newest Lamport time (some of them equal in every field) but only {got.length} were emitted")
+      else if got.length > want.length then
+        some ("extra-event", s!"name {hexOfString n}: an event was emitted more often than it was received")
       else some ("order", s!"name {hexOfString n}: newest events emitted in the wrong order or multiplicity")
 
 /-- all ways to cut a list into consecutive non-empty segments -/
